@@ -26,6 +26,16 @@ CHECKS = {
     text="Kernel-checked theorems for every source text and every caller option vector: the scanner equals 'collect the directives of directive lines in order and apply them' (scan_eq_spec), last directive wins, unknown names are ignored, unnamed options keep the caller's value, the option set never changes, lines whose first non-blank character is not '#' carry no directive, '-' and '_' are alike. The loop's shape and literals and the field test are re-read from compiler.py on every run (fail-closed translator) and proved equal to the model's; the model is run against compile_code on 1500+ generated sources (mixed separators, Unicode spaces, attribute-like names) and the OBSERVE equality is checked on real compiles.",
     note="Trusted: Coq kernel; PyStr.v (Python string methods; exercised against CPython by the correspondence run); translator pragma.py.",
     design="4 C15"),
+ "C03": dict(
+    category="proof", technique="Coq proofs per operator over the regenerated folding table (Python semantics of each lambda = instruction semantics, all operands in the domain) + correspondence with CPython + compile-and-run observation",
+    text="The operator tables of utils.py, including the body of every folding lambda, are re-read on each run as terms and proved equal to the model tables; for each operator the kernel checks, for ALL operands in the stated domain, that Python's evaluation of the lambda yields exactly the value the paired instruction computes (+ - * / ** comparisons: identical IEEE operation; %: for every non-negative modulus; and/or/^/&/>>/<<: non-negative integers below 2^53; not; unary minus up to the sign of zero, from the standard library's IEEE axioms; ~ is never folded). The Python-semantics model is compared with the real lambdas on an operand grid, and the property's own observation (constant operands vs operands loaded from the stack, four program shapes) is run through the compiler and the machine model.",
+    note="Trusted: Coq kernel + stdlib Floats.FloatAxioms (named in print_assumptions); Fold.v model of Python numerics (compared with CPython each run); FloatAlg.v chip arithmetic; transcendental functions / pow assumed identical on both sides; translator ops.py. The recursive is_constant evaluator and the propagation passes are exercised by the observation runs, not modelled.",
+    design="4 C03"),
+ "C01": dict(
+    category="translation_validation", technique="Coq reference semantics (source dialect + IC10 machine) with kernel-checked machine/validator lemmas; per-compile validation by differential execution inside Coq; generated programs, shrinking, known-finding classification",
+    text="Source dialect and IC10 machine are Coq definitions (trusted specs). Kernel-checked for all programs/oracles/operands: effects are never retracted and fuel-cut traces are prefixes of longer runs, verdict 0 of the comparison implies event-wise agreement, the negated-comparison table (regenerated) pairs every operator with the negated relation and the negated branch is taken exactly when the comparison is false for all ordered operands (refuted for NaN). The compiler is not modelled as a function: every generated program (grammar-directed, all listed constructs) is compiled under rotating option sets and its emitted text executed against the source under 3 device oracles by vm_compute of those same definitions; disagreements are shrunk and replayed. T1 (a verified simulation checker) is not built yet: the per-compile verdict is a bounded test, stated as such.",
+    note="Trusted: Coq kernel; Src/Sem.v, IC10/Machine.v, FloatAlg.v (specifications); ic10.py reader; generator's two printers. Bounded by fuel and by the sample of programs/oracles; timing not modelled; NaN excluded. One open known finding (fall-through after a terminating main, pinned by .ref files).",
+    design="4 C01"),
 }
 
 NOT_YET = {}
